@@ -224,9 +224,20 @@ def rule_guard_first(run: Run, prog: Program, sites, exc_name: str) -> None:
                         isinstance(x, ast.Call) and isinstance(x.func, ast.Attribute) and x.func.attr in MUTATORS for x in ast.walk(st.value)):
                     derived |= _names(st.value)
         locals_tested = {v for v in derived if v in binds and v not in params and not _is_callable_name(prog, fn, v)}
-        guard_line = min(g[1].lineno for g in guards)
         problems = []
         for v in sorted(locals_tested):
+            # the guard that validates v: the first enclosing test that reads v (directly or through a one-step derivation); enclosing tests
+            # about other things (an earlier type check whose else arm holds the rest of the function) do not count
+            mine = []
+            for g in guards:
+                gn = set(_names(g[1]))
+                for w in list(gn):
+                    for st in binds.get(w, []):
+                        if isinstance(st, ast.Assign) and st.lineno < rs.lineno:
+                            gn |= _names(st.value)
+                if v in gn:
+                    mine.append(g[1].lineno)
+            guard_line = min(mine) if mine else min(g[1].lineno for g in guards)
             last_bind = max([st.lineno for st in binds[v] if st.lineno < guard_line] or [0])
             first_bind = min([st.lineno for st in binds[v]] or [0])
             for m in _mutations_of(fn, v):
